@@ -2,6 +2,7 @@
 //! Runs the real crate on generated inputs and writes cases / observations for the Coq model to re-evaluate.
 mod c01;
 mod c02;
+mod c03;
 mod c04;
 mod cifgen;
 mod c05;
@@ -119,6 +120,7 @@ fn main() {
     match prop.as_str() {
         "C01" => c01::run(seed, count, thorough, &mut out),
         "C02" => c02::run(seed, count, thorough, &mut out),
+        "C03" => c03::run(seed, count, thorough, &mut out),
         "C04" => c04::run(seed, count, thorough, &mut out),
         "C05" => c05::run(seed, count, thorough, &mut out),
         "C06" => c06::run(seed, count, thorough, &mut out),
